@@ -426,9 +426,14 @@ def monitorOp (mu : Mon) (prev : Args) (toks : List String) (implOk : Bool) (out
     -- ghost admin list: what instantiation and the successful UpdateAdmins calls said
     let submitted : List String := (a.list "admins").map fun x => (parseAddr x).2
     let gPrevAdmins := mu.gadmins
-    let mu : Mon := if isInst && implOk then { mu with gadmins := some cAdmins }
+    let mu : Mon := if isInst && implOk then { mu with gadmins := some submitted }
       else if !fresh && kind == "update_admins" && implOk then { mu with gadmins := some submitted } else mu
-    let fadm := if fresh then [] else
+    -- instantiation stores the submitted admins, nobody else (compared as sets: the order and repetitions of the
+    -- stored list are not part of either statement)
+    let finst := if isInst && implOk && !(cAdmins.all submitted.contains && submitted.all cAdmins.contains) then
+        [mk "C17" "C17/instantiate-admins-not-as-submitted" s!"submitted={submitted} stored={cAdmins}",
+         mk "C07" "C07/admin-set-not-as-instantiated" s!"submitted={submitted} stored={cAdmins}"] else []
+    let fadm := finst ++ if fresh then [] else
       -- a successful UpdateAdmins takes effect
       (if kind == "update_admins" && implOk && cAdmins != submitted then
         [mk "C17" "C17/update-admins-no-effect" s!"submitted={submitted} stored={cAdmins}",
